@@ -325,6 +325,13 @@ func main() {
 			{initLine(0, 1, []string{"2:10:0"}, []string{"0:9223372036854775806"}), "burn 2 1 0 1 a0", "burn 2 1 0 2 a0", "burn 2 1 0 3 a0"},
 			{initLine(1, 10, []string{"1:1000:0", "2:18446744073709551615:0", "0:5:0"}, nil), "burn 1 10 1 1 a0", "burn 2 10 18446744073709551615 1 a0", "burn 2 18446744073709551615 0 1 a0", "burn 0 0 0 1 a3"},
 		},
+		Extra: func() map[string]interface{} {
+			m := map[string]interface{}{}
+			for k, v := range zcnw.Stats {
+				m[k] = v
+			}
+			return map[string]interface{}{"impl_outcomes": m}
+		},
 		Nontrivial: func(ops, outs []string) bool {
 			k := map[string]bool{}
 			for _, o := range outs {
